@@ -15,7 +15,7 @@ LEVEL_TEXT = ('for every operation of the fault-free trace and every applicable 
               'faulted trace (pairs); every run must terminate within 20x the fault-free length and end with the argument fully trashed (in any candidate) or untouched, exit status 0 iff '
               'trashed, pre-existing pairs unchanged')
 LEVEL_NOTE = 'faults are injected at Python os-call granularity with errnos from a per-syscall table; triples of faults and errnos outside the table are not covered'
-RULE = ('scenarios: kind {file, tree, symlink} x route {home cold, home warm, .Trash/uid, .Trash-uid, home fallback, home trash whose info is a regular file, home trash without info/, .Trash-uid + enabled fallback} + a directory that contains its only candidate trash directory (rename answers EINVAL by itself); level 1 = all ops x all applicable errnos + sticky faults on mutating '
+RULE = ('scenarios: kind {file, tree, symlink} x route {home cold, home warm, .Trash/uid, .Trash-uid, home fallback, home trash whose info is a regular file, home trash without info/, .Trash-uid + enabled fallback} + a directory that contains its only candidate trash directory (rename answers EINVAL by itself) + two arguments in one run x {file, tree} x {home warm, .Trash-uid}; level 1 = all ops x all applicable errnos + sticky faults on mutating '
         'ops and on stat/lstat; level 2 quick = second fault on mutating ops with {EACCES, ENOSPC, EIO} for 4 scenarios, thorough = all ops x all errnos for 4 scenarios and the quick scope elsewhere; '
         'non-trivial = the fault was delivered and changed the trace; distinct = (route, faulted op(s), errno(s), outcome)')
 LEVEL2_SCOPE = {'quick': 'second fault on mutating operations with errno in {EACCES, ENOSPC, EIO} for 4 scenarios (file/home-cold, file/fallback, tree/.Trash-uid, link/.Trash/uid)',
@@ -30,7 +30,9 @@ def dimensions(tier):
 
 def scenarios(tier):
     # + a directory that contains the only candidate trash directory: rename(2) answers EINVAL without any injected fault
-    return [{'kind': k, 'route': r} for r in ROUTES for k in KINDS] + [{'kind': 'tree', 'route': 'inside-entry'}]
+    return [{'kind': k, 'route': r} for r in ROUTES for k in KINDS] + [{'kind': 'tree', 'route': 'inside-entry'}] + [
+        # two arguments in one run: whatever happens to the second must not touch what the first one became
+        {'kind': k, 'route': r, 'two': True} for r in ('home-warm', 'alt') for k in ('file', 'tree')]
 
 
 def level2_filter(tier, scn, op, errno, mut):
@@ -58,6 +60,8 @@ def make_world(s):
     W = scen.base_world(mounts=['/', '/mnt/v1'], cwd=B)
     W.dir(B)
     scen.add_entry(W, B + '/x', s['kind'])
+    if s.get('two'):
+        scen.add_entry(W, B + '/pre', 'file')
     if s['route'] == 'inside-entry':
         scen.add_trash_dir(W, td)
     if s['route'] == 'top':
@@ -82,13 +86,17 @@ def command(s):
         env['TRASH_ENABLE_HOME_FALLBACK'] = '1'
     if s['route'] == 'inside-entry':
         argv += ['--trash-dir', 'x/T']
+    if s.get('two'):
+        argv.append('pre')
     return {'argv': argv + ['x'], 'env': env, 'cwd': B, 'now': '2024-05-06T07:08:09', 'plan': {'resolve': 'all'}}
 
 
 def oracle(s, start, after, r, flts):
     B, td = _layout(s)
     E = B + '/x'
-    cl = scen.classify_put(start, after, E)
+    PRE = B + '/pre'
+    cl = scen.classify_put(start, after, E, others=[PRE] if s.get('two') else ())
+    clp = scen.classify_put(start, after, PRE, others=[E]) if s.get('two') else None
     fdesc = '+'.join('%s:%s%s' % (f['op'], f['errno'], '*' if f.get('sticky') else '') for f in flts) or 'none'
     ops = '+'.join('%s%s' % (f['op'], '*' if f.get('sticky') else '') for f in flts) or 'none'
     delivered = sum(1 for t in r.trace for f in flts if t[0] == f['at'] and t[4] == f['errno'])
@@ -131,6 +139,21 @@ def oracle(s, start, after, r, flts):
                 'detail': dict(detail, decisive_ops=ops, kind=kind, causes=sorted(allc))}
     if r.budget:
         return viol('does-not-terminate')
+    if clp is not None and clp['state'] != 'TRASHED':
+        # the first argument was completely in the trash (its payload moved) before the first fault was delivered: it has to stay that way
+        moved = [t[0] for t in r.trace if t[1] in ('rename', 'replace') and cell.ok_of(t) and t[2] and t[2][0].rstrip('/').endswith('/pre')]
+        if moved and flts and min(f['at'] for f in flts) > moved[0]:
+            intact = False
+            for tdx, (infos_, pays_) in scen.trash_state(after).items():
+                for inm, raw in infos_.items():
+                    nm_ = inm[:-len('.trashinfo')]
+                    loc, _p = scen.trashinfo_location(tdx, raw or b'')
+                    if nm_ in pays_ and loc is not None and scen.location_matches(tdx, loc, PRE) and \
+                            world.same_entry(start, PRE, after, '%s/files/%s' % (tdx, nm_)):
+                        intact = True
+            if not intact:
+                detail['first_argument'] = clp['why']
+                return viol('earlier-argument-damaged-while-handling-a-later-one')
     tb = r.exit not in (0, 74) and 'Traceback' in r.err
     if tb and cl['state'] != 'HALF':
         # an uncaught exception that leaves the entry untouched and exits non-zero is a (crude) failure report:
@@ -173,7 +196,10 @@ def oracle(s, start, after, r, flts):
             return viol('relative-Path-written-in-the-home-trash')
         if tdx.startswith('/mnt/v1/') and praw.startswith(b'/'):
             return viol('absolute-Path-written-in-a-volume-trash-dir')
-    if (r.exit == 0) != (cl['state'] == 'TRASHED'):
+    if clp is not None:
+        if (r.exit == 0) != (cl['state'] == 'TRASHED' and clp['state'] == 'TRASHED'):
+            return viol('exit-status-lies(exit=%s,states=%s+%s)' % ('0' if r.exit == 0 else 'nonzero', clp['state'], cl['state']))
+    elif (r.exit == 0) != (cl['state'] == 'TRASHED'):
         return viol('exit-status-lies(exit=%s,state=%s)' % ('0' if r.exit == 0 else 'nonzero', cl['state']))
     return {'verdict': 'ok', 'klass': '%s(%s)' % (cl['state'], 'exit0' if r.exit == 0 else 'nz'), 'nontrivial': nt, 'detail': detail}
 
